@@ -85,7 +85,8 @@ IDX = (10, 11)
 
 class Slice:
     """A bounded instance: usable initial nodes (terminal / literal / zero names), operations,
-    node bound, rank bound, index names; simulate = number of random behaviours (else exhaustive)."""
+    node bound, rank bound, index names; simulate = number of random behaviours per TLC worker
+    (else the slice is explored exhaustively)."""
 
     def __init__(self, name, use, ops, maxnodes, cm, idx=(10,), maxrank=1, simulate=None):
         self.name, self.use, self.ops, self.maxnodes, self.cm = name, list(use), sorted(ops), maxnodes, bool(cm)
@@ -125,10 +126,12 @@ def slices(tier):
         S("vec-c", ["vv", "uu", "c", "f"], {"inner", "dot", "outer", "conj", "mul", "index", "isum"}, 2, True, idx=(10, 11), maxrank=2),
         # real mode erases conj / real before the check
         S("erase-r", ["v", "u", "f", "two"], {"conj", "real", "mul", "add", "abs"}, 2 if q else 3, False),
-        # deep random terms
-        S("deep-r", ["v", "u", "f", "g", "c", "gv", "one", "two", "onehalf", "z", "zz"], DEEP, 6, False, idx=(10, 11), maxrank=2, simulate=4000 if q else 60000),
-        S("deep-c", ["v", "u", "f", "c", "gu", "one", "two", "imag", "z", "zz"], (DEEP | {"conj", "real", "imag"}) - {"restrict"}, 6, True, idx=(10, 11), maxrank=2, simulate=3000 if q else 50000),
-        S("deep-vec-c", ["vv", "uu", "c", "f", "two", "z", "zz"], {"inner", "dot", "outer", "conj", "mul", "index", "isum", "add", "sub", "list", "as_tensor", "div", "cond", "lt", "real"}, 5, True, idx=(10, 11), maxrank=2, simulate=2000 if q else 40000),
+        # deep random terms (no Power in complex mode: do_comparison_check calls float() on the exponent,
+        # which for a symbolic exponent recurses between Expr.__float__ and Terminal.evaluate without
+        # practical end)
+        S("deep-r", ["v", "u", "f", "g", "c", "gv", "one", "two", "onehalf", "z", "zz"], DEEP, 6, False, idx=(10, 11), maxrank=2, simulate=100 if q else 1200),
+        S("deep-c", ["v", "u", "f", "c", "gu", "one", "two", "imag", "z", "zz"], (DEEP | {"conj", "real", "imag"}) - {"restrict", "pow"}, 6, True, idx=(10, 11), maxrank=2, simulate=80 if q else 1000),
+        S("deep-vec-c", ["vv", "uu", "c", "f", "two", "z", "zz"], {"inner", "dot", "outer", "conj", "mul", "index", "isum", "add", "sub", "list", "as_tensor", "div", "cond", "lt", "real"}, 5, True, idx=(10, 11), maxrank=2, simulate=50 if q else 700),
     ]
     if not q:
         out += [
@@ -571,19 +574,39 @@ def abstract(e):
             h = getattr(c, "_ufl_handler_name_", None)
             if h is not None and (not chain or chain[-1] != h):
                 chain.append(h)
-        nodes.append({"h": chain, "n": o.number() if isinstance(o, Argument) else -1, "z": 1 if isinstance(o, Zero) else 0, "a": [pos[id(x)] for x in o.ufl_operands]})
-        pos[id(o)] = len(nodes)
+        nodes.append({"h": chain, "n": o.number() if isinstance(o, Argument) else -1, "z": 1 if isinstance(o, Zero) else 0, "a": [pos[x] for x in o.ufl_operands]})
+        pos[o] = len(nodes)  # keyed by structural equality, as the traversal itself
     return nodes
+
+
+_EVAL = None
+
+
+def _evaluator():
+    """vf.sem.Evaluator with the range guard of CQ.tla on exponents (z ** k for |k| <= 6 only: the
+    exact power is computed by repeated multiplication)."""
+    global _EVAL
+    if _EVAL is None:
+        from ..sem import Evaluator
+
+        class AEval(Evaluator):
+            def n_Power(self, o, c, b, ctx):
+                y = self.ev(o.ufl_operands[1], (), b, ctx)
+                if y.exact and y.im == 0 and Fraction(y.re).denominator == 1 and abs(y.re) > 6:
+                    raise Undefined("exponent beyond the exact range")
+                return Evaluator.n_Power(self, o, c, b, ctx)
+
+        _EVAL = AEval
+    return _EVAL
 
 
 def evaluate(w, e):
     """Exact value of the scalar expression in every environment; None where undefined/inexact."""
-    from ..sem import Evaluator
-
+    ev = _evaluator()
     out = []
     for env in w.envs:
         try:
-            v = Evaluator(env).scalar(e)
+            v = ev(env).scalar(e)
             out.append(v if v.exact else None)
         except (Undefined, ZeroDivisionError, OverflowError):
             out.append(None)
@@ -743,6 +766,9 @@ MUTANTS = {"sum-union": _mutant_sum_union}
 def work(job):
     """Worker: replay a chunk of records of one run.  job = (run json, pool json, records, cfd
     stride, mutant)."""
+    import warnings
+
+    warnings.simplefilter("ignore")  # ufl warns when float() of a symbolic exponent is attempted
     rj, pj, recs, stride, mutant = job
     if mutant:
         MUTANTS[mutant]()
@@ -753,10 +779,32 @@ def work(job):
         want = 0
         if stride and rec["_i"] % stride == 0:
             want = 2 if (rec["_i"] // stride) % 2 else 1
-        r = process(w, rec, want)
+        r = _guarded(process, w, rec, want)
         r["_i"] = rec["_i"]
         out.append(r)
     return out
+
+
+class _Timeout(BaseException):  # not an Exception: ufl's own `except Exception` must not swallow it
+    pass
+
+
+def _guarded(fn, w, rec, want, limit=20):
+    """fn under a wall-clock limit: a hang is reported as a skipped term, never as a verdict."""
+    import signal
+
+    def on_alarm(signum, frame):
+        raise _Timeout()
+
+    old = signal.signal(signal.SIGALRM, on_alarm)
+    signal.alarm(limit)
+    try:
+        return fn(w, rec, want)
+    except _Timeout:
+        return {"prog": rec["prog"], "sl": rec["sl"], "status": "timeout"}
+    finally:
+        signal.alarm(0)
+        signal.signal(signal.SIGALRM, old)
 
 
 # ------------------------------------------------------------------------------------------------
